@@ -833,6 +833,46 @@ func (cfg *Config) wordFields(wps []syntax.WordPart) ([][]fieldPart, error) {
 					continue
 				}
 			}
+			if len(wp.Parts) > 1 && quotedListPart(wp.Parts) {
+				// "x$@y" is one field per element, with the rest of
+				// the string joined to the first and last of them.
+				other := false
+				for _, part := range wp.Parts {
+					pe, _ := part.(*syntax.ParamExp)
+					elems, err := cfg.quotedElemFields(pe)
+					if err != nil {
+						return nil, err
+					}
+					if elems != nil {
+						for i, elem := range elems {
+							if i > 0 {
+								flush()
+							}
+							curField = append(curField, fieldPart{
+								quote: quoteDouble,
+								val:   elem,
+							})
+						}
+						continue
+					}
+					other = true
+					wfield, err := cfg.wordField([]syntax.WordPart{part}, quoteDouble)
+					if err != nil {
+						return nil, err
+					}
+					for _, part := range wfield {
+						part.quote = quoteDouble
+						curField = append(curField, part)
+					}
+				}
+				if other {
+					allowEmpty = true
+					if len(curField) == 0 {
+						curField = append(curField, fieldPart{quote: quoteDouble})
+					}
+				}
+				continue
+			}
 			allowEmpty = true
 			wfield, err := cfg.wordField(wp.Parts, quoteDouble)
 			if err != nil {
@@ -910,6 +950,22 @@ func (cfg *Config) wordFields(wps []syntax.WordPart) ([][]fieldPart, error) {
 		fields = append(fields, curField)
 	}
 	return fields, nil
+}
+
+// quotedListPart reports whether any of the parts of a double-quoted string
+// is an "@" list expansion such as $@ or ${arr[@]}, which makes the string
+// expand to a field per element.
+func quotedListPart(parts []syntax.WordPart) bool {
+	for _, part := range parts {
+		pe, ok := part.(*syntax.ParamExp)
+		if !ok || pe.Param == nil || pe.Length || pe.Width || pe.IsSet {
+			continue
+		}
+		if pe.Param.Value == "@" || nodeLit(pe.Index) == "@" || pe.Names == syntax.NamesPrefixWords {
+			return true
+		}
+	}
+	return false
 }
 
 // listElems returns the elements of a "*" or "@" expansion of a list, like
